@@ -124,6 +124,11 @@ type Scenario struct {
 	// options
 	OrderedShutdown bool     `json:"ordered_shutdown,omitempty"`
 	ViaCmd          bool     `json:"via_cmd,omitempty"` // run through the binary's headless entry point (installs its signal handler)
+	StallClients    bool     `json:"stall_clients,omitempty"` // fault F13 also applies to the tasks that issue the requests
+	ForceStallTask  string   `json:"force_stall_task,omitempty"` // F13 placed on purpose: this task is set aside ...
+	ForceStallStep  int      `json:"force_stall_step,omitempty"` // ... before its n-th step ...
+	ForceStallMs    int      `json:"force_stall_ms,omitempty"`   // ... for so long
+	StallSweep      int      `json:"stall_sweep,omitempty"`      // the worker runs the scenario once per step 1..n
 	Keep            bool     `json:"keep_project,omitempty"` // with ViaCmd: as "up --keep-project" does (the binary stays until the project is shut down)
 	ToRun           []string `json:"to_run,omitempty"`
 	NoDeps          bool     `json:"no_deps,omitempty"`
